@@ -130,6 +130,8 @@ def run_directed(tracings, rep, pre=False, stages=False, which="post"):
     rejects is a tool error (the templates are mine)."""
     import aikendirected as ad
     mods = ad.all_families()
+    if os.environ.get("VERIF_FAMILY"):        # development aid: one family only
+        mods = [m for m in mods if m["family"] == os.environ["VERIF_FAMILY"]]
     cases = [{"id": i, "src": m["src"], "tracings": tracings, "fns": [{"name": n, "args": args} for n, _, args in m["entries"]],
               "pre": pre, "stages": stages} for i, m in enumerate(mods)]
     obs = vlib.run_harness("aiken_run", stdin_lines=cases, timeout=3600)
